@@ -155,9 +155,14 @@ Apply(st, ev) ==
            IF ~st.objs[ev.o].w THEN Raise(st)
            ELSE Ok(Write(st, ev.o, Ident(n), [k \in 1..n |-> v[k] + ev.v]), 0)
       [] op = "iadd_v" ->
-           LET n == OLen(st, ev.o)  v == Vals(st, ev.o)  u == Vals(st, ev.src) IN
-           IF ~st.objs[ev.o].w \/ Len(u) # n THEN Raise(st)
-           ELSE Ok(Write(st, ev.o, Ident(n), [k \in 1..n |-> v[k] + u[k]]), 0)
+           LET n == OLen(st, ev.o)  v == Vals(st, ev.o)  u == Vals(st, ev.src)  ob == st.objs[ev.o] IN
+           IF ~ob.w THEN Raise(st)
+           ELSE IF Len(u) = n THEN Ok(Write(st, ev.o, Ident(n), [k \in 1..n |-> v[k] + u[k]]), 0)
+           \* a masked reference also accepts an operand of its UNMASKED length: element k then pairs with the operand's
+           \* element at its own raw position (what VectorizedMaskedVoidOperation does; also with an empty selection)
+           ELSE IF ob.masked /\ Len(u) = Len(st.heap[ob.buf])
+                THEN Ok(Write(st, ev.o, Ident(n), [k \in 1..n |-> v[k] + u[ob.idx[k] + 1]]), 0)
+           ELSE Raise(st)
       [] op = "release" ->                                   \* dropping a Python reference never frees a shared buffer
            Ok([st EXCEPT !.objs = [x \in DOMAIN st.objs \ {ev.o} |-> st.objs[x]]], 0)
 
